@@ -15,7 +15,7 @@ from __future__ import annotations
 
 import ast
 
-from ..core import AnalysisError, const_value, norm, walk_own, walk_stmts
+from ..core import AnalysisError, const_value, norm, walk_own, walk_stmts, names_in
 from ..paths import enum_paths, is_exit_stmt
 from . import realign_common as rc
 from . import c11
@@ -141,7 +141,21 @@ def check_helpers(ctx, m):
     pf = m.parent
     repo = ctx.repo
     seen = {}
+    # names bound to a part / transformation of a process list (pending = processes[k:], alive = [p for p in processes if ...])
+    derived = {}
+    for st in walk_own(pf.node):
+        if isinstance(st, ast.Assign) and isinstance(st.targets[0], ast.Name) and st.targets[0].id not in m.proc_lists and (names_in(st.value) & m.proc_lists) and not isinstance(st.value, ast.Call) or (isinstance(st, ast.Assign) and isinstance(st.targets[0], ast.Name) and isinstance(st.value, (ast.ListComp, ast.Subscript)) and (names_in(st.value) & m.proc_lists)):
+            derived[st.targets[0].id] = norm(st.value)
     for n in walk_own(pf.node):
+        arg0 = n.args[0] if isinstance(n, ast.Call) and len(n.args) == 1 else None
+        is_subset = arg0 is not None and ((not isinstance(arg0, ast.Name) and (names_in(arg0) & m.proc_lists)) or (isinstance(arg0, ast.Name) and arg0.id in derived))
+        if is_subset:
+            h = repo.resolve_call(pf, n)
+            if h is not None and rc.helper_shape(h) is not None:
+                shown = norm(n) + (f" with {arg0.id} = {derived[arg0.id]}" if isinstance(arg0, ast.Name) and arg0.id in derived else "")
+                ctx.violated("R13.2", pf.where(n), f"`{shown}` inspects only part of the group's processes: a worker outside that part can die unnoticed (or be the only one still alive)", key_of(pf, f"helper-subset:{shown}"))
+                seen.setdefault(h.qualname, True)
+                continue
         if isinstance(n, ast.Call) and len(n.args) == 1 and norm(n.args[0]) in m.proc_lists:
             h = repo.resolve_call(pf, n)
             if h is None or h.qualname in seen:
